@@ -7,6 +7,7 @@ import (
 	"fmt"
 	"go/token"
 	"go/types"
+	"strings"
 
 	"golang.org/x/tools/go/ssa"
 )
@@ -225,12 +226,22 @@ func checkC05(P *Program, r *Result, tier string) {
 				dst, src := fa.sliceDesc(cp.Common().Args[0]), fa.sliceDesc(cp.Common().Args[1])
 				if dst != nil && src != nil && dst.Root != nil && isLoadOfField(fn, dst.Root, "buf") && src.Root == ssa.Value(fn.Params[1]) {
 					base := fa.sliceDesc(dst.Root)
+					// the destination is all the room that is left, or exactly the payload's size (room for it
+					// is what the acquire routine guarantees: ROOM)
 					ok = fa.proveEq(dst.Off, base.Len, cp.Block()) && fa.proveEq(src.Off, linConst(0), cp.Block()) && fa.proveEq(src.Len, bs.Len, cp.Block()) &&
-						fa.proveEq(dst.Len, base.Cap.sub(base.Len), cp.Block())
+						(fa.proveEq(dst.Len, base.Cap.sub(base.Len), cp.Block()) || fa.proveEq(dst.Len, bs.Len, cp.Block()))
 					if cur := cellSliceAt(fa, ret, "buf"); cur != nil {
 						ext = fa.proveEq(cur.Len, base.Len.add(fa.expand(cp)), ret.Block())
 					}
 					_ = full
+				}
+			}
+			if k, isC := constInt(ret.Results[0]); cp == nil && isC && k == 0 {
+				// nothing written and 0 reported: exact for an empty payload with the buffer untouched
+				key := "P:" + fn.Params[0].Name() + ".buf"
+				if fa.prove(ineqLE(bs.Len, linConst(0)), ret.Block(), rootCtx) && fa.mem.versionAt(ret, key) == fa.mem.entry[key] {
+					r.add("CURSOR", shortName(fn), "return", "an empty payload leaves the buffer as it is and reports 0", P.pos(instrPos(ret)), true, "")
+					continue
 				}
 			}
 			if cp == nil {
@@ -583,13 +594,18 @@ func checkC05(P *Program, r *Result, tier string) {
 	}
 
 	// ---- PUBLISH ----
+	var pubField *ssa.FieldAddr
 	if fn := P.Method(relBufiox, P.helperTypeOf(relBufiox, "BytesWriter", "fakedIOWriter"), "Write"); r.require("bufiox: Write of the publishing sink embedded in BytesWriter", fn != nil) {
 		pub := false
 		for _, b := range fn.Blocks {
 			for _, in := range b.Instrs {
 				if st, ok := in.(*ssa.Store); ok && st.Val == ssa.Value(fn.Params[1]) {
-					if k := pathOf(st.Addr); k == "P:"+fn.Params[0].Name()+".bw*.flushBytes*" {
-						pub = true
+					// the target is a *[]byte held in a field reached from the sink itself
+					if ld, isLd := st.Addr.(*ssa.UnOp); isLd && ld.Op == token.MUL && isPtrToByteSlice(ld.Type()) {
+						if fa2, isFA := ld.X.(*ssa.FieldAddr); isFA && strings.HasPrefix(pathOf(fa2), "P:"+fn.Params[0].Name()+".") {
+							pub = true
+							pubField = fa2
+						}
 					}
 				}
 			}
@@ -612,8 +628,9 @@ func checkC05(P *Program, r *Result, tier string) {
 			}
 		}
 		r.add("PUBLISH", shortName(fn), "call", "the writer starts from the target slice's current contents (*buf)", P.pos(fn.Pos()), ok, "")
-		finits := fieldInits(fn, "flushBytes", 0)
-		flush := len(finits) > 0
+		// every *[]byte field the constructor initialises is the publication target
+		finits := ptrByteSliceInits(fn, 0)
+		flush := len(finits) > 0 && pubField != nil
 		for _, v := range finits {
 			if v != ssa.Value(fn.Params[0]) {
 				flush = false
@@ -712,6 +729,47 @@ func init() { register("C05", "other", checkC05) }
 // directly or through repository callees (a callee's parameter is translated to
 // the caller's argument), whatever the route: field stores, composite literals,
 // a reset-style helper.
+func isPtrToByteSlice(t types.Type) bool {
+	p, ok := t.Underlying().(*types.Pointer)
+	return ok && isByteSlice(p.Elem())
+}
+
+// ptrByteSliceInits: the values stored into struct fields of type *[]byte by fn and its repository callees.
+func ptrByteSliceInits(fn *ssa.Function, depth int) []ssa.Value {
+	var out []ssa.Value
+	if fn == nil || fn.Blocks == nil || depth > 2 {
+		return nil
+	}
+	for _, b := range fn.Blocks {
+		for _, in := range b.Instrs {
+			switch x := in.(type) {
+			case *ssa.Store:
+				if fa, ok := x.Addr.(*ssa.FieldAddr); ok && isPtrToByteSlice(x.Val.Type()) {
+					_ = fa
+					out = append(out, x.Val)
+				}
+			case ssa.CallInstruction:
+				cal := x.Common().StaticCallee()
+				if cal == nil || !inRepo(cal) || cal == fn {
+					continue
+				}
+				for _, v := range ptrByteSliceInits(cal, depth+1) {
+					if p, ok := v.(*ssa.Parameter); ok {
+						for i, cp := range cal.Params {
+							if cp == p && i < len(x.Common().Args) {
+								out = append(out, x.Common().Args[i])
+							}
+						}
+						continue
+					}
+					out = append(out, v)
+				}
+			}
+		}
+	}
+	return out
+}
+
 func fieldInits(fn *ssa.Function, field string, depth int) []ssa.Value {
 	var out []ssa.Value
 	if fn == nil || fn.Blocks == nil || depth > 2 {
